@@ -1,6 +1,7 @@
 import LettreVerif.Model.Transports
 import LettreVerif.Proofs.Client
 import LettreVerif.Props.C03
+import LettreVerif.Proofs.EnvelopeJson
 /-!
 # C18 — Every transport delivers the same envelope and the same bytes
 
@@ -58,6 +59,25 @@ theorem json_escape_lossless (s : Bytes) : jsonUnescape (s.flatMap jsonEscapeByt
       · simp only [jsonEscapeByte, h1, h2, if_false, List.cons_append, List.nil_append]
         unfold jsonUnescape
         simp [h1, h2, ih]
+
+/-- **file: the JSON envelope reads back equal.** For every envelope — any number of recipients, with or without a reverse
+    path, quotes and backslashes of quoted local parts included — an independent reader of the object
+    `{"forward_path":[…],"reverse_path":…}` (`Spec/EnvelopeJson.lean`: strings end at the first quote that is not escaped)
+    applied to the `.json` file the transport writes finds exactly that envelope. (`envelopeJson` is compared octet for octet
+    with the real file on every case; the same reader is applied to the real file.) -/
+theorem envelope_file_reads_back (e : Envelope) : EnvelopeJson.readEnvelope (envelopeJson e) = some e :=
+  EnvelopeJson.read_envelopeJson e
+
+/-- non-vacuity: two recipients, one with the quoted local part `"q\"x"` (a quote and a backslash inside); no reverse path;
+    a reverse path; a malformed file is refused -/
+example :
+    let qa : Bytes := [34, 113, 92, 34, 120, 34] ++ str "@d.e"
+    let js : Bytes := str "{\"forward_path\":[\"a@b.c\",\"" ++ [92, 34, 113, 92, 92, 92, 34, 120, 92, 34] ++ str "@d.e\"],\"reverse_path\":null}"
+    envelopeJson ⟨none, [str "a@b.c", qa]⟩ = js ∧
+    EnvelopeJson.readEnvelope js = some ⟨none, [str "a@b.c", qa]⟩ ∧
+    EnvelopeJson.readEnvelope (str "{\"forward_path\":[\"a@b.c\"],\"reverse_path\":\"s@t.u\"}") = some ⟨some (str "s@t.u"), [str "a@b.c"]⟩ ∧
+    EnvelopeJson.readEnvelope (str "{\"forward_path\":[\"a@b.c\",],\"reverse_path\":null}") = none := by
+  decide +kernel
 
 /-- stub: the logged text is exactly the octets whenever they are UTF-8 … -/
 theorem stub_exact_partial (msg : Bytes) (h : utf8Valid msg = true) : stubLog msg = some msg := by
